@@ -43,9 +43,8 @@ pub fn apply_checked<E: Clone>(d: &VectorDiff<E>, v: &mut Vec<E>) -> Result<(), 
             v.remove(*index);
         }
         VectorDiff::Truncate { length } => {
-            if *length > v.len() {
-                return Err(format!("Truncate length {} > len {}", length, v.len()));
-            }
+            // Truncating to at least the current length is a documented no-op
+            // of `VectorDiff::apply` (C18), not an inapplicable diff.
             v.truncate(*length);
         }
         VectorDiff::Reset { values } => {
